@@ -153,16 +153,19 @@ def view_cases(rng, n):
         c = gen_stream(rng, 2)
         ops = []
         if rng.random() < 0.7:
-            full = rng.random() < 0.7
-            ops.append(['link', 0, 1, True if full else rng.random() < 0.5, True if full else rng.random() < 0.5, True if full else rng.random() < 0.5])
+            full = rng.random() < 0.5
+            ops.append(['link', rng.randrange(2), rng.randrange(2), True if full else rng.random() < 0.5,
+                        True if full else rng.random() < 0.5, True if full else rng.random() < 0.5])
         for _ in range(rng.randint(0, 2)):
             ops.append(rng.choice([['read_mass', rng.randrange(2)], ['set_mass', rng.randrange(2), rng.randrange(8), rng.randrange(8), 64.],
                                    ['copy_like', rng.randrange(2), 2], ['flow_proxy', 0], ['proxy', 1]]))
-        ops.append(rng.choice([['unlink', 0], ['unlink', 1], ['unlink', 0], ['copy_like', 0, 2], ['link', 1, 0, True, True, True]]))
+        ops.append(rng.choice([['unlink', 0], ['unlink', 1], ['unlink', 0], ['copy_like', 0, 2], ['link', 1, 0, True, True, True],
+                               ['copy_like', 0, 1], ['copy_like', 1, 0], ['set_phase', rng.randrange(2), rng.choice(['g', 'l', 's'])]]))
         for _ in range(rng.randint(1, 3)):
             ops.append(rng.choice([['set_flow', rng.randrange(2), rng.randrange(8), rng.randrange(8), rng.choice([8., 16., 0.5])],
                                    ['set_mass', rng.randrange(2), rng.randrange(8), rng.randrange(8), rng.choice([64., 32., 128.])],
-                                   ['scale', rng.randrange(2), 2.], ['read_mass', rng.randrange(2)]]))
+                                   ['scale', rng.randrange(2), 2.], ['read_mass', rng.randrange(2)], ['read_mass', rng.randrange(2)],
+                                   ['copy_like', rng.randrange(2), rng.randrange(2)], ['set_phase', rng.randrange(2), rng.choice(['g', 'l', 's'])]]))
         cases.append({'streams': [a, b, c], 'ops': ops, 'rx': {'a': 1., 'b': 2., 'X': 0.5}})
     return cases
 
@@ -249,6 +252,12 @@ def mass_rows(s):
     n = s._imol._chemicals.size
     rows = d.rows if is_multi(s) else [d]
     return [[float(r[i]) for i in range(n)] for r in rows]
+
+def mass_phases(s):
+    """phase(s) reported by the mass view (the Phase object / phases tuple it was built with)"""
+    v = s.imass
+    if is_multi(s): return [PH[p] for p in v._phases]
+    return [PH.get(v._phase._phase, 7)]
 
 def touch_keys(store):
     for s in store:
@@ -396,7 +405,7 @@ def run_impl(case):
         except Exception as ex:
             out['new'].append(ERR.get(type(ex).__name__, 'EOther'))
     if not store:
-        out['final'] = []; out['pickle_ok'] = True; out['aux'] = []; out['keyed'] = []; out['mass'] = []
+        out['final'] = []; out['pickle_ok'] = True; out['aux'] = []; out['keyed'] = []; out['mass'] = []; out['mphases'] = []
         return out
     touch_keys(store)
     for op in case['ops']:
@@ -414,6 +423,7 @@ def run_impl(case):
     out['final'] = snapshot(store)
     out['keyed'] = [keyed_rows(s) for s in store]
     out['mass'] = [mass_rows(s) for s in store]
+    out['mphases'] = [mass_phases(s) for s in store]
     # real pickling of every final stream, compared with the in-process reduce (which the model predicts)
     ok = True; notes = []
     for k, s in enumerate(store):
@@ -494,7 +504,8 @@ def coq_case(case, out):
     side = out['pickle_ok'] and not out['aux']
     mass = clist([clist(m, qlist) for m in out['mass']])
     keyed = clist([clist(m, qlist) for m in out['keyed']])
-    return f'(run_eqb {model_ops(case, out)} {res} {final} {mass} {keyed} && {cbool(side)})'
+    mph = clist([clist(m, cnat) for m in out['mphases']])
+    return f'(run_eqb {model_ops(case, out)} {res} {final} {mass} {keyed} {mph} && {cbool(side)})'
 
 def coq_show(case, out):
     return f'(run_show {model_ops(case, out)})'
@@ -591,6 +602,13 @@ def views_agree(store, name):
         got = mass_rows(s)
         if any(abs(a - b) > 1e-9 * max(1., abs(a), abs(b)) for ra, rb in zip(got, want) for a, b in zip(ra, rb)) or len(got) != len(want):
             return f'{name}: the mass view of stream {k} does not show its own flows ({got} vs {want}): it still wraps data of another stream'
+        if not is_multi(s):
+            for vname, view in (('mass', s.imass), ('volumetric', s.ivol)):
+                if view._phase is not s._imol._phase:
+                    return (f'{name}: the {vname} view of stream {k} is bound to the phase object of another stream '
+                            f'(view phase {view._phase._phase!r}, stream phase {s.phase!r}): a derived view is shared although the phase is not')
+        elif tuple(s.imass._phases) != tuple(s._imol._phases):
+            return f'{name}: the mass view of stream {k} has phases {s.imass._phases}, the stream {s._imol._phases}'
     return None
 
 def oracle(case):
@@ -613,6 +631,7 @@ def oracle(case):
         before = [full(s) for s in store]
         fps = [footprint_ids(s) for s in store]
         separate = [k for k in range(len(store)) if k != i and not (fps[k] & fps[i])]
+        src_before = cond(store[rop[2]]) if name == 'copy_like' else None
         try:
             r = apply_op(store, rop)
             raised = None
@@ -637,10 +656,16 @@ def oracle(case):
             if any(probe_shared(a, c1).values()): return 'copy: a change to the original is visible in the copy'
         elif name == 'copy_like':
             b = store[rop[2]]
-            src = cond(b)
+            src = src_before
+            if cond(b) != src_before and not raised:
+                return (f'copy_like: the source stream was changed by copy_like ({src_before[0]} -> {cond(b)[0]}); '
+                        f'{"target and source share flow data" if fps[i] & fps[rop[2]] else "nothing shared"}')
             have = {c.ID for c in a._imol._chemicals.tuple}
             feasible = all(c in have for (_, c) in src[0])
-            if raised:
+            bad_phase = any(p > 4 for p in values(b)['phases'])   # an invalid phase letter (set unchecked through MultiStream.phase)
+            if raised == 'RuntimeError' and bad_phase:
+                pass
+            elif raised:
                 if feasible or raised != 'UndefinedChemicalAlias':
                     return f'copy_like: raised {raised} ({values(a)["multi"] and "MultiStream" or "Stream"} <- {values(b)["multi"] and "MultiStream" or "Stream"}, phases {values(b)["phases"]})'
             else:
@@ -679,6 +704,7 @@ def oracle(case):
                     if any(sh.values()): return f'unlink: still shares {[x for x in sh if sh[x]]} with another stream ({"proxy" if a._imol is s._imol else "link"})'
         elif name == 'reduce':
             v = values(a)
+            if raised == 'RuntimeError' and any(p > 4 for p in v['phases']): continue
             if raised: return f'reduce/from_data: raised {raised} (phases {v["phases"]}, multi={v["multi"]})'
             w = values(r)
             if not plus_equal(v, w, with_id=bool(a._ID)) and not (v['multi'] and len(v['phases']) == 1 and
@@ -687,7 +713,7 @@ def oracle(case):
         if r is not None: store.append(r)
     for k, s in enumerate(store):
         v = values(s)
-        if not v['cls_ok'] or inconsistent(s): continue
+        if not v['cls_ok'] or inconsistent(s) or any(p > 4 for p in v['phases']): continue
         try:
             w = pickle_values(s)
         except Exception as ex:
@@ -703,6 +729,7 @@ def oracle(case):
 def finding_key(case, msg):
     head = msg.split(':')[0]
     if head == 'unlink' and 'proxy' in msg: return 'C13:unlink-after-proxy'
+    if 'bound to the phase object' in msg: return 'C13:view-phase'
     if 'mass view' in msg: return 'C13:stale-mass-view'
     if '(phase, ID)' in msg: return 'C13:keyed-access'
     return 'C13:' + head
@@ -748,6 +775,21 @@ CORPUS = [
     # 8 MultiStream.proxy(): AttributeError (no `equations`)
     {'streams': [_s('M', 0, phases=['g', 'l'], flows={'g': [1., 0., 2.]}, id='x1'), _s('S', 0, phase='l', flow=[1., 0., 0.], id='x2')],
      'ops': [['proxy', 0], ['set_flow', 2, 0, 1, 8.], ['set_T', 0, 310.]], 'rx': _RX},
+]
+# every flag subset of link_with between two Streams in different phases, then both mass views are read and a phase is changed;
+# copy_like between streams that already share their flow data (flow proxy, link) in both directions
+for _fl in (False, True):
+    for _ph in (False, True):
+        for _tp in (False, True):
+            CORPUS.append({'streams': [_s('S', 0, phase='l', flow=[1., 0., 2.], id='x1'), _s('S', 0, phase='g', flow=[0., 4., 0.], T=350.5, id='x2')],
+                           'ops': [['link', 1, 0, _fl, _ph, _tp], ['read_mass', 0], ['read_mass', 1], ['set_phase', 1, 's'], ['set_mass', 1, 0, 1, 64.]],
+                           'rx': _RX})
+CORPUS += [
+    {'streams': [_s('S', 0, phase='l', flow=[1., 0., 2.], id='x1'), _s('S', 0, phase='g', flow=[0., 4., 0.], T=350.5, id='x2')],
+     'ops': [['flow_proxy', 0], ['copy_like', 2, 0], ['copy_like', 0, 2], ['link', 1, 0, True, False, False], ['copy_like', 1, 0], ['copy_like', 0, 1]], 'rx': _RX},
+    {'streams': [_s('M', 0, phases=['g', 'l'], flows={'g': [1., 0., 2.], 'l': [0., 4., 0.]}, id='x1'),
+                 _s('M', 0, phases=['g', 'l'], flows={'l': [0., 8., 0.]}, T=350.5, id='x2')],
+     'ops': [['link', 1, 0, True, True, True], ['copy_like', 1, 0], ['copy_like', 0, 1], ['flow_proxy', 0], ['copy_like', 2, 0]], 'rx': _RX},
 ]
 # witness of C13_unlink_sep_refuted (coq/C13/Props.v): a proxy holds the same indexer object, unlink does not replace it
 WITNESSES = [{'key': 'C13:unlink-after-proxy',
